@@ -34,3 +34,7 @@ func TestVerifC12FixedExhaustive(t *testing.T) {
 func TestVerifC12Random(t *testing.T) {
 	vs.Run(t, "C12", func(c *vs.Case) error { return vw.PropC12(c, decoratorFactory, "decorator", false) })
 }
+
+func TestVerifC13Decorator(t *testing.T) {
+	vs.Run(t, "C13", func(c *vs.Case) error { return vw.PropC13(c, decoratorFactory, "decorator") })
+}
